@@ -722,8 +722,11 @@ static TPM_RESULT TPM2_ValidateState(enum TPMLIB_StateType st,
         free(data);
     }
 
+    /* a blob (or the 'hide' marker) cached by TPMLIB_SetState() was validated
+       there; VolatileLoad() would take it away from TPMLIB_MainInit() */
     if ((rc == TPM_RC_SUCCESS) &&
-        (st & TPMLIB_STATE_VOLATILE)) {
+        (st & TPMLIB_STATE_VOLATILE) &&
+        !HasCachedState(TPMLIB_STATE_VOLATILE)) {
         rc = VolatileLoad(&restored);
     }
 
